@@ -54,7 +54,7 @@ theorem inv_add_ok {o : Opts} {f : File} {e : Ev} (hA : AlwaysParticles o) (hi :
     Inv o (add o f e none) := by
   rw [add_none]
   obtain ⟨hlen, hcells, hnew⟩ := add_ok_cells (e := e) hA hi
-  obtain ⟨b1, b2, b3, b4, b5⟩ := body_tables (e := e) (b := fullBudget) hi
+  obtain ⟨b1, b2, b3, b4, b5⟩ := body_tables (e := e) (b := fullBudget) hi.lenc hi.lenc_eq
   obtain ⟨hf, _⟩ := body_facts o e f fullBudget
   have hcell : ∀ i t, cell (finishOk (body o e f fullBudget)) i t = cell (body o e f fullBudget) i t :=
     fun _ _ => rfl
@@ -123,7 +123,7 @@ theorem add_rej_cells {o : Opts} {f : File} {e : Ev} {k : Nat} (hi : Inv o f) :
 theorem inv_add_rej {o : Opts} {f : File} {e : Ev} {k : Nat} (hi : Inv o f) :
     Inv o (add o f e (some (k+1))) := by
   obtain ⟨hlen, hcells⟩ := add_rej_cells (e := e) (k := k) hi
-  obtain ⟨b1, b2, b3, b4, b5⟩ := body_tables (e := e) (b := k) hi
+  obtain ⟨b1, b2, b3, b4, b5⟩ := body_tables (e := e) (b := k) hi.lenc hi.lenc_eq
   obtain ⟨hf, _⟩ := body_facts o e f k
   have hrows : (add o f e (some (k+1))).rows = (body o e f k).rows := rfl
   have hctr : (add o f e (some (k+1))).counter = (body o e f k).counter := rfl
@@ -205,7 +205,7 @@ theorem getEvent_congr {f f' : File} {i : Nat} {t : Tbl} (hc : cell f' i t = cel
 theorem rt_add_ok {o : Opts} {f : File} {e : Ev} {L : List (Nat × Ev)} (hA : AlwaysParticles o)
     (hi : Inv o f) (h : RT o f L) : RT o (add o f e none) (L ++ [(f.calls, e)]) := by
   obtain ⟨hlen, hcells, hnew⟩ := add_ok_cells (e := e) hA hi
-  obtain ⟨_, _, _, b4, _⟩ := body_tables (e := e) (b := fullBudget) hi
+  obtain ⟨_, _, _, b4, _⟩ := body_tables (e := e) (b := fullBudget) hi.lenc hi.lenc_eq
   rw [add_none]
   have hget : ∀ i t, getEvent (finishOk (body o e f fullBudget)) i t = getEvent (body o e f fullBudget) i t :=
     fun _ _ => rfl
@@ -244,7 +244,7 @@ theorem rt_add_ok {o : Opts} {f : File} {e : Ev} {L : List (Nat × Ev)} (hA : Al
 theorem rt_add_rej {o : Opts} {f : File} {e : Ev} {k : Nat} {L : List (Nat × Ev)}
     (hi : Inv o f) (h : RT o f L) : RT o (add o f e (some (k+1))) L := by
   obtain ⟨hlen, hcells⟩ := add_rej_cells (e := e) (k := k) hi
-  obtain ⟨_, _, _, b4, _⟩ := body_tables (e := e) (b := k) hi
+  obtain ⟨_, _, _, b4, _⟩ := body_tables (e := e) (b := k) hi.lenc hi.lenc_eq
   refine ⟨by rw [hlen, ← hi.ixlen]; exact h.1, fun i c e' hi' t => ?_⟩
   rw [← h.2 i c e' hi' t]
   exact getEvent_congr (hcells i t) (b4 t) (hi.inb i t)
